@@ -201,7 +201,7 @@ def run_check(prop_id: str, tier: str, seed: int, replay: dict | None = None) ->
         # 4. correspondence + spec oracle
         rng = random.Random(seed)
         ctx = {"rng": rng, "tier": tier, "workdir": workdir, "seed": seed}
-        if replay is not None:
+        if replay is not None and replay.get("case") is not None:
             cases = [replay["case"]]
         else:
             cases = spec.corpus_cases() if hasattr(spec, "corpus_cases") else []
